@@ -152,6 +152,22 @@ EXTRA = [
     return r
   return g(x) + int(math.floor(1.5))
 '''),
+    ('e:defaults_and_kwonly', '''def f(x, n, b, xs):
+  y = 1
+  z = 2
+  if b:
+    y = x
+  def inner(p, q=y, *, k=z, m=y):
+    r = p + q + k + m
+    return r
+  z = 5
+  def other(*args, w=z, **kw):
+    return len(args) + w
+  a = inner(1)
+  if n > 1:
+    a = inner(2, k=n) + other(1, 2)
+  return a
+'''),
     ('e:maybe_undefined', '''def f(x, n, b, xs):
   if b:
     u = 1
